@@ -341,6 +341,16 @@ struct timespec* sentTime) {
           m_currentRequest = startRequest;  // force the failed request to be notified
         }
       }
+      if (arbitrationState == as_lost && result >= RESULT_OK) {
+        // the received symbol is the address of the winner. if same priority class found, try again after next
+        // AUTO-SYN
+        symbol_t sentAddress = m_currentRequest ? m_currentRequest->getMaster()[0] : m_ownMasterAddress;
+        m_remainLockCount = isMaster(recvSymbol) ? 2 : 1;  // number of SYN to wait for before next send try
+        if ((recvSymbol & 0x0f) != (sentAddress & 0x0f) && m_lockCount > m_remainLockCount) {
+          // if different priority class found, try again after N AUTO-SYN symbols (at least next AUTO-SYN)
+          m_remainLockCount = m_lockCount;
+        }
+      }
       setState(m_state, RESULT_ERR_BUS_LOST);
       break;
     case as_won:  // implies RESULT_OK
